@@ -3,7 +3,7 @@ from props import _auto
 
 LEAN_MODULES = _auto.lean_modules("C01")
 VARIANTS = ['default']
-RULE = 'every length 0..=4*block+1 exhaustively for each fixed variant, BLAKE2 outlen x keylen grids x boundary lengths, random long messages; non-trivial = message or key not all zero/empty; distinct = distinct case lines'
+RULE = 'every length 0..=4*block+1 exhaustively for each fixed variant — 22 fixed variants exist and are exercised as `hash.<alg>` ops: the 16 fixed algorithms (SHA-1, SHA-224/256/384/512, SHA-512/224, SHA-512/256, SHA3-224/256/384/512, Keccak-224/256/384/512, RIPEMD-160) plus the 6 fixed-size BLAKE2 one-shots blake2b_224/256/384/512, blake2s_224/256 (the property text counts 25; src/hashing has no further fixed variant; 20 of the 22 have a one-shot function in hashing/mod.rs, SHA-512/224 and SHA-512/256 are context-only; every one is also answered through Context::new().update(msg).finalize()) —, BLAKE2 outlen x keylen grids (quick: 5 x 4 boundary values, thorough: every outlen 1..=max x every keylen 0..=max) x boundary lengths, messages beyond 4 blocks for every variant incl. the six BLAKE2 one-shots, random long messages up to 8 KiB (quick) / 64 KiB (thorough) and one 64 KiB message per variant in both tiers; non-trivial = message or key not all zero/empty; distinct = distinct case lines'
 TRUSTED = ["hand-written Lean models (lean/CxVerif/Impl, Spec) tied to the code by the correspondence run and by tables re-extracted from /repo/src"]
 ASSUMPTIONS = ["messages shorter than the standards' own limits: < 2^61 bytes (SHA-1, SHA-224/256, RIPEMD-160), < 2^125 bytes (SHA-384/512/t); SHA-3/Keccak/BLAKE2 < 2^64 bytes (usize) — lengths beyond 64 KiB are exercised only through hook-preset counters (hlen ops) and self-consistency (long.* ops), not byte-for-byte against the Spec", 'the processed-bytes counters are modelled as wrapping (release semantics); the overflow-checked behaviour at the counter limit belongs to C20']
 gen = _auto.make_gen("C01")
